@@ -6,7 +6,7 @@ from lib_inc import *
 CUR = 10
 
 
-def claim_world(it, last_claimed, nflows=1, expanded=False, start=5, end=20):
+def claim_world(it, last_claimed, nflows=1, expanded=False, start=5, end=20, hist_epochs=None, tame=False):
     c = it.ctx
     st = setup_inc(it, 'native', epoch=CUR)
     w = it.world
@@ -14,14 +14,20 @@ def claim_world(it, last_claimed, nflows=1, expanded=False, start=5, end=20):
     w.item('global_weight', U128(c.sym('global_weight', 128))); w.item('flow_counter', nflows)
     # weight history: an entry at last_claimed+1 (written by the previous claim / position change) and possibly one later change
     first = (last_claimed + 1) if last_claimed is not None else start - 1
-    hist = [([Str('alice'), first], U128(c.sym('uw_a', 120)))]
-    if first + 1 <= CUR: hist.append(([Str('alice'), first + 1], U128(c.sym('uw_b', 120))))
+    if hist_epochs is None: hist_epochs = [first] + ([first + 1] if first + 1 <= CUR else [])
+    first = min(first, hist_epochs[0])
+    hist = [([Str('alice'), e], U128(c.sym('uw_%s' % 'abcd'[i], 120))) for i, e in enumerate(hist_epochs)]
     w.map('address_weight_snapshot', hist)
     snaps = []
     gws = {}
     for e in range(min(first, start) , CUR + 1):
         g = c.sym('gw_%d' % e, 120); gws[e] = g
         snaps.append(([e], U128(g)))
+        if tame:
+            # prune the InvalidReward / overflow branches: shares <= 1 and moderate magnitudes (the differential claim-vs-query
+            # obligation is about the paid paths)
+            for i in range(len(hist_epochs)): c.assume(c.sym('uw_%s' % 'abcd'[i], 120) == 250 + 150 * i)
+            c.assume(g == 1000)            # concrete snapshot: divisions by constants keep the path conditions cheap
     w.map('global_weight_snapshot', snaps)
     w.map('last_claimed_epoch', [([Str('alice')], last_claimed)] if last_claimed is not None else [])
     flows = []; fl = []
@@ -33,10 +39,12 @@ def claim_world(it, last_claimed, nflows=1, expanded=False, start=5, end=20):
             x = c.sym('fl0_expanded', 121); c.assume(x >= amt)
             hist_m = MapV('BTreeMap', [[start + 2, Agg('tuple', [U128(x), end + 5])]]); total = x
         c.assume(claimed <= total)
+        if tame: c.assume(total < 2**40); c.assume(claimed == 0)
         # emitted_tokens holds cumulative emissions of already processed epochs (none recorded here: a fresh flow record)
+        fstart = start + (i if tame else 0)        # in the gap configuration later flows start inside the gap of the weight history
         f = it.mk(I + 'Flow', flow_id=i + 1, flow_label=NONE(), flow_creator=ADDR('creator'), flow_asset=masset(it, 'native', 'ureward%d' % i, amt), claimed_amount=U128(claimed),
-                  curve=it.mkv(I + 'Curve', 'Linear'), start_epoch=start, end_epoch=end, emitted_tokens=MapV('HashMap', []), asset_history=hist_m)
-        flows.append(([start, i + 1], f)); fl.append(dict(amount=amt, claimed=claimed, total=total))
+                  curve=it.mkv(I + 'Curve', 'Linear'), start_epoch=fstart, end_epoch=end, emitted_tokens=MapV('HashMap', []), asset_history=hist_m)
+        flows.append(([fstart, i + 1], f)); fl.append(dict(amount=amt, claimed=claimed, total=total))
     w.map('flows', flows)
     st.update(flows=fl, gws=gws)
     return st
@@ -48,13 +56,13 @@ def flow_after(p, i):
 
 def run(ck):
     prog = ck.program('incentive', 'white_whale_std')
-    cfgs = [(8, 1, False, 5), (8, 1, True, 5), (None, 1, False, 9)]
-    if ck.tier == 'thorough': cfgs += [(7, 1, False, 5), (8, 2, False, 5), (7, 1, True, 5), (None, 1, False, 8)]
-    for last, nflows, expanded, start in cfgs:
-        tag = 'claim.last%s.f%d%s.s%d' % (last, nflows, '.exp' if expanded else '', start)
+    cfgs = [(8, 1, False, 5, None), (8, 1, True, 5, None), (None, 1, False, 9, None), (None, 2, False, 8, [8, 10])]
+    if ck.tier == 'thorough': cfgs += [(7, 1, False, 5, None), (8, 2, False, 5, None), (7, 1, True, 5, None), (None, 1, False, 8, None)]
+    for last, nflows, expanded, start, hist_epochs in cfgs:
+        tag = 'claim.last%s.f%d%s.s%d%s' % (last, nflows, '.exp' if expanded else '', start, '.gap' if hist_epochs else '')
         # ---- differential: rewards query immediately before the claim, same state ----
-        def body(it, last=last, nflows=nflows, expanded=expanded, start=start):
-            st = claim_world(it, last, nflows, expanded, start=start)
+        def body(it, last=last, nflows=nflows, expanded=expanded, start=start, hist_epochs=hist_epochs):
+            st = claim_world(it, last, nflows, expanded, start=start, hist_epochs=hist_epochs, tame=hist_epochs is not None)
             env = mk_env(it, 10**18)
             q = enter(it, 'incentive', 'query', env, None, it.mkv(I + 'QueryMsg', 'Rewards', address=Str('alice')))
             it.extra = dict(st=st, q=q)
